@@ -137,16 +137,35 @@ def tlc_dump(cfg_text, cfgname, timeout=420):
     open(os.path.join(run, cfgname + ".cfg"), "w").write(cfg_text)
     dump = os.path.join(run, "dump.json")
     jar = "/opt/veriftools/tla/tla2tools.jar:/opt/veriftools/tla/CommunityModules-deps.jar"
-    r = subprocess.run(["java", "-XX:+UseParallelGC", "-Xmx24g", "-cp", jar, "tlc2.TLC", "-dumpTrace", "json", dump, "-workers", "auto",
-                        "-metadir", os.path.join(run, "meta"), "-config", cfgname + ".cfg", "MC.tla"], cwd=run, capture_output=True, text=True, timeout=timeout)
+    try:
+        r = subprocess.run(["java", "-XX:+UseParallelGC", "-Xmx24g", "-cp", jar, "tlc2.TLC", "-dumpTrace", "json", dump, "-workers", "auto",
+                            "-metadir", os.path.join(run, "meta"), "-config", cfgname + ".cfg", "MC.tla"], cwd=run, capture_output=True, text=True, timeout=timeout)
+    except subprocess.TimeoutExpired:
+        shutil.rmtree(run, ignore_errors=True)
+        raise
     out = r.stdout
     m = re.search(r"Invariant (\w+) is violated", out)
     ok = "No error has been found" in out
     return run, (dump if os.path.exists(dump) and m else None), (m.group(1) if m else None), ok, out
 
 
-# witness configurations: small models in which each deviation shows up quickly
-WITNESS_CFGS = ["MC_Core2_quick.cfg", "MC_Wit_Restart.cfg", "MC_Wit_Out.cfg", "MC_Wit_OutNR2.cfg", "MC_Prio_quick.cfg", "MC_Health_quick.cfg", "MC_Faults_quick.cfg", "MC_Wit_NR2.cfg"]
+# witness configurations: small models in which each deviation shows up quickly; PREFER lists the ones to try first
+WITNESS_CFGS = ["MC_ValCancel_quick.cfg", "MC_Health_quick.cfg", "MC_Abort_quick.cfg", "MC_Core2_quick.cfg", "MC_Outside_quick.cfg", "MC_Validate_quick.cfg",
+                "MC_Conn_quick.cfg", "MC_Faults_quick.cfg", "MC_Prio_quick.cfg", "MC_Vacancy_quick.cfg", "MC_Wit_Restart.cfg", "MC_Wit_NR2.cfg",
+                "MC_Wit_Out.cfg", "MC_Wit_OutNR2.cfg", "MC_OutsideVal_quick.cfg"]
+PREFER = {
+    "hb_no_recheck_after_health": ["MC_Health_quick.cfg"], "health_gt": ["MC_Health_quick.cfg"], "health_not_reset": ["MC_Health_quick.cfg"],
+    "validate_without_leader_gate": ["MC_Validate_quick.cfg", "MC_OutsideVal_quick.cfg"], "validate_fast_path": ["MC_Validate_quick.cfg", "MC_OutsideVal_quick.cfg"],
+    "closed_suppresses_grace": ["MC_Conn_quick.cfg"], "verify_sets_connected_after_newer_disconnect": ["MC_Conn_quick.cfg"],
+    "verification_failure_without_demotion": ["MC_Conn_quick.cfg"],
+    "takeover_continues_after_stop": ["MC_Prio_quick.cfg"], "takeover_ge": ["MC_Prio_quick.cfg"], "watcher_demotion_without_callback": ["MC_Prio_quick.cfg"],
+    "conflict_transient": ["MC_Outside_quick.cfg", "MC_Prio_quick.cfg"], "delete_without_owner_check": ["MC_Prio_quick.cfg", "MC_Wit_Out.cfg"],
+    "four_failures": ["MC_Faults_quick.cfg"], "validation_first_error_demotes": ["MC_ValCancel_quick.cfg"],
+    "validation_failure_notifies_unconditionally": ["MC_ValCancel_quick.cfg"], "aborted_stop_skips_ondemote": ["MC_Abort_quick.cfg"],
+    "exhaustion_demotes_leader": ["MC_Wit_NR2.cfg", "MC_Wit_OutNR2.cfg"], "double_promotion": ["MC_Wit_OutNR2.cfg", "MC_Wit_Out.cfg"],
+    "stale_event_demotes": ["MC_Wit_Restart.cfg", "MC_Core2_quick.cfg"], "promote_ctx_is_election_ctx": ["MC_Core2_quick.cfg"],
+    "stop_keeps_claim": ["MC_Core2_quick.cfg"], "claim_after_stop": ["MC_Core2_quick.cfg"],
+}
 
 
 def gen(devs):
@@ -156,7 +175,14 @@ def gen(devs):
     os.makedirs(os.path.join(ROOT, "schedules"), exist_ok=True)
     for d in devs:
         found = False
-        for cfgname in WITNESS_CFGS:
+        name0 = [os.path.basename(p) for p in glob.glob(os.path.join(ROOT, "schedules", "w-*-%s.json" % d))]
+        if name0 and not os.environ.get("WITNESS_REDO"):
+            print("%-45s exists: %s" % (d, name0[0]))
+            continue
+        order = PREFER.get(d, []) + [c for c in WITNESS_CFGS if c not in PREFER.get(d, [])]
+        if os.environ.get("WITNESS_PREFER_ONLY") and d in PREFER:
+            order = PREFER[d]
+        for cfgname in order:
             p = os.path.join(SPEC, cfgname)
             if not os.path.exists(p):
                 continue
@@ -165,7 +191,7 @@ def gen(devs):
             text = text.replace("Inst = {a, b}", 'Inst = {"A", "B"}').replace("Inst = {a, b, c}", 'Inst = {"A", "B", "C"}').replace("SYMMETRY Sym\n", "")
             t0 = time.time()
             try:
-                run, dump, inv, ok, out = tlc_dump(text, cfgname[:-4] + "_" + d)
+                run, dump, inv, ok, out = tlc_dump(text, cfgname[:-4] + "_" + d, timeout=int(os.environ.get("WITNESS_TIMEOUT", "240")))
             except subprocess.TimeoutExpired:
                 print("%-45s %-22s timeout" % (d, cfgname))
                 continue
